@@ -26,6 +26,7 @@ def fp_tabulate(prog, job, out, log=print):
     solver, FP assertions are decided by frontier cubes (tabulate.py)"""
     ex = engine.Executor(prog, None, job.get('unwind', 400))
     ex.stage_re = job.get('stage_re', r'(?i)round|Score$')
+    ex.istage_re = job.get('istage_re', r'(?i)^macrovector$')
     ex.run_inits()
     t0 = time.time()
     ex.call_function(job['func'], [], TRUE, None)
@@ -41,7 +42,7 @@ def fp_tabulate(prog, job, out, log=print):
     plain = [i for i, o in enumerate(ex.obligations) if not has_zone(o['viol'], memo)]
     out['results'] = []
     if plain:
-        r = engine.discharge(ex, job['solvers'][0], job['timeout'], only=set(plain))
+        r = engine.discharge(ex, job['solvers'][0], job['timeout'], only=set(plain), workers=job.get('workers', 16))
         out['vacuity'] = {job['solvers'][0]: r['vacuity']}
         out['solver_time'] = {job['solvers'][0]: round(r['solver_time'], 3)}
         out['queries'] = {job['solvers'][0]: r['queries']}
@@ -76,7 +77,7 @@ def fp_tabulate(prog, job, out, log=print):
             if f:
                 rec['status'] = 'sat'
                 rec['model'] = f[0]['model']
-                rec['tables'] = table_values(ex, o['viol'], f[0]['model'])
+                rec['tables'] = table_values(ex, roots + [e['val'] for e in extras], f[0]['model'])
                 rec['n_failing_cubes'] = rep.get('n_failing_cubes')
             elif bad:
                 rec['status'] = 'unknown'
@@ -97,7 +98,7 @@ def fp_tabulate(prog, job, out, log=print):
                 rec['relation'] = rel['kind']
                 tabs = {}
                 for m in rel['models']:
-                    for r_ in [e['val'] for e in extras]:
+                    for r_ in [roots + [e['val'] for e in extras]]:
                         for nm, kv in table_values(ex, r_, m).items():
                             tabs.setdefault(nm, {}).update(kv)
                 rec['tables'] = tabs
@@ -123,13 +124,15 @@ def table_values(ex, root, model):
         need.setdefault(name, {})[str(key)] = v
         return v
     # default 0 for inputs the model leaves unconstrained
-    for t in TM.topo([root]):
+    roots = root if isinstance(root, list) else [root]
+    for t in TM.topo(roots):
         if t.op == 'var' and t.val not in env:
             env[t.val] = False if t.sort == 'B' else 0
-    try:
-        TM.evaluate([root], env, tab)
-    except KeyError:
-        pass
+    for r in roots:
+        try:
+            TM.evaluate([r], env, tab)
+        except KeyError:
+            pass
     return need
 
 
